@@ -153,7 +153,7 @@ def run(ctx):
                     if len(ms) != len(set(ms)):
                         report("C13:two-dids-of-one-method", f"subject {sname} event {k}", w)
                     # O2 consecutive versions (schedules where the sweep runs before the next operation on the subject)
-                    if kind in ("plain", "quiet", "now"):
+                    if kind in ("plain", "quiet", "now", "mid"):
                         for d in s["dids"]:
                             if d[2] != list(range(len(d[2]))):
                                 report("C13:versions-not-consecutive", f"subject {sname} event {k}: {d[2]}", w)
@@ -239,6 +239,35 @@ def run(ctx):
             last = obs[-1]
             if last[1] != 0:
                 report("C13:changelog-remains-after-sweep", f"{last[1]} change records after a fault-free run and a sweep", w)
+        # a sweep never touches change records younger than the threshold: if less than 60 s have passed since the last
+        # operation (and everything older was swept before), the sweep changes nothing
+        age = 10 ** 9
+        clean_before = True
+        for k, (op, o) in enumerate(zip(w["ops"], obs)):
+            if op["op"] == "do":
+                if age >= 60 and k > 0 and obs[k - 1][1] != 0 and age < 10 ** 9:
+                    clean_before = False       # old records not swept yet: a later young sweep may legitimately resolve them
+                age = 0
+            elif op["op"] == "tick":
+                age += op.get("d", 0)
+            elif op["op"] == "sweep":
+                if age < 58 and clean_before and k > 0 and o[1:] != obs[k - 1][1:]:
+                    report("C13:sweep-touched-young-change-records", f"event {k}: a sweep {age} s after the last operation changed the state: "
+                           f"{obs[k - 1][1]} -> {o[1]} change records", w)
+                if age >= 60:
+                    clean_before = True
+        if kind == "mid":
+            # the rollback loop ticked while the operation was in flight: every observation equals the fault-free run's
+            j = int(tag[1])
+            sid = ":".join(tag[2:])
+            pw = plain.get(sid)
+            if pw is not None and all(o is not None for o in pw["obs"]) and w["ops"][j + 1].get("fault") == "sweepat":
+                stats["cut:sweep-during-in-flight-operation"] += 1
+                for k in range(1, min(len(obs), len(pw["obs"]))):
+                    if obs[k] != pw["obs"][k]:
+                        report("C13:sweep-during-in-flight-operation-changed-the-outcome", f"event {k} ({w['ops'][k].get('kind', w['ops'][k]['op'])}): "
+                               f"{impl[w['start'] + k][:260]}  BUT without the sweep: {impl[pw['start'] + k][:260]}", w)
+                        break
         if kind == "now":
             # the publish failed (request context cancelled or not) and the caller retried at once: everything from the retry on is as
             # in the fault-free run, and at the end no change record is left
@@ -448,4 +477,5 @@ REQUIRED_DEEP = ["uniform_versions", "versions_consecutive", "versions_consecuti
                  "abandoned_keys_unpublished_partial", "abandoned_keys_unpublished",
                  "create_check_and_write_are_one_step", "non_atomic_create_breaks_subject_unique",
                  "first_transaction_is_atomic", "versions_without_change_records_are_never_rolled_back",
-                 "change_records_name_new_versions", "subject_naming_order_independent", "naming_at_visit_depends_on_order"]
+                 "change_records_name_new_versions", "subject_naming_order_independent", "naming_at_visit_depends_on_order",
+                 "sweep_ignores_young_records"]
